@@ -174,8 +174,8 @@ func init() {
 		NotCovered: "FIFO delivery, exactly-once delivery, mutual exclusion, select fairness and Once's run-once guarantee: properties of schedules, delegated to Go's channels and sync package.",
 	}
 	props["C27"] = &PropSpec{
-		Rules:      []string{"cover/deepcopy", "repl/snapshot-restore", "cache/invalidate"},
-		Decides:    "the rollback half of the property (a rejected input leaves no trace) at the level of record fields: every DeepCopyEnv method of the type environment writes every field of the copy it returns (or the field is read nowhere, or it is rebuilt by the registerAsChild protocol), and the checker's REPL entry point stores back every snapshot it took, on every path, when the input is rejected, and drops the memoised copies of the scope stacks it replaces.",
+		Rules:      []string{"cover/deepcopy", "repl/snapshot-restore", "repl/persistent-fields", "cache/invalidate"},
+		Decides:    "that no field of the incremental checker carries state from one input into the next unmanaged: every field a function reachable from CheckProgram assigns (outside a save/restore bracket) is put back on the failure branch, re-initialised before anything reads it, drained by a phase every program runs, or is a listed, reasoned exception; and the rollback half of the property (a rejected input leaves no trace) at the level of record fields: every DeepCopyEnv method of the type environment writes every field of the copy it returns (or the field is read nowhere, or it is rebuilt by the registerAsChild protocol), and the checker's REPL entry point stores back every snapshot it took, on every path, when the input is rejected, and drops the memoised copies of the scope stacks it replaces.",
 		NotCovered: "that the deep copies are deep enough (aliasing between the live environment and the snapshot through shared maps or slices), the VM side of a session (persistent stack, globals after a runtime error), and equality of incremental and batch output in general: relations over input histories.",
 	}
 }
